@@ -40,6 +40,9 @@ def random_items(seed, n, pool):
 
 def run(ctx):
     ctx.mc("text", MODULE, "MC_Options.cfg", overrides={"MaxParts": 1}, required_actions=["Extend"])
+    # the spelling theorems are state independent: one TLC run on the single state of the (int, single, unset)
+    # configuration, without coverage instrumentation (a violated theorem stops the check as a machinery failure)
+    ctx.gen_states("text", MODULE, "Thm_Options.cfg")
     mp = ctx.pick(2, 3)
     states = ctx.gen_states("text", MODULE, "Gen_Options.cfg", overrides={"MaxParts": mp})
     paths, rel_items = td.paths_from_states(states)
